@@ -3,6 +3,8 @@
  *
  * stdin:  records  { u8 flags; u8 codelen; u8 code[16]; u32 regs[8] (eax ecx edx ebx esp ebp esi edi);
  *                    u32 eflags; u8 hot[HOT]; [if flags&1: u8 mm[8][8]; u8 xmm[8][16]] }
+ *         flags&8: x87 mode - after hot[]: u8 st[8][10] (ST0..ST7, 80-bit), u8 ftw (abridged tags, physical; TOP is 0);
+ *                  the reply then ends with u8 st[8][10] (stack order), u16 swd, u8 ftw
  *         flags&2: the hot bytes live at LOW_ADDR+HOT_OFF (reachable with 16-bit addressing) instead of DATA_ADDR+HOT_OFF
  * stdout: records  { u32 status (0 = stepped, else signal number, 0xffff = tracer failure);
  *                    u32 regs[8]; u32 eip; u32 eflags; u8 hot[HOT]; [if flags&1: mm, xmm] }
@@ -71,6 +73,8 @@ int main(int argc, char **argv) {
         if (!rd(&flags, 1)) break;
         if (!rd(&codelen, 1) || !rd(code, 16) || !rd(regs, 32) || !rd(&eflags, 4) || !rd(hot, HOT)) break;
         if (flags & 1) { if (!rd(mmx, 64) || !rd(xmm, 128)) break; }
+        uint8_t x87[80], x87tag = 0xff;
+        if (flags & 8) { if (!rd(x87, 80) || !rd(&x87tag, 1)) break; }
         uint32_t status = 0;
         uint8_t codebuf[32];
         memcpy(codebuf, code, 16); memcpy(codebuf + 16, nops, 16);
@@ -94,6 +98,12 @@ int main(int argc, char **argv) {
             }
             memcpy(fp.xmm_space, xmm, 128);
             fp.ftw = 0xff; fp.swd = 0;
+            if (ptrace(PTRACE_SETFPREGS, child, 0, &fp) < 0) status = 0xffff;
+        }
+        if (status == 0 && (flags & 8)) {
+            fp = fpbase;
+            for (int i = 0; i < 8; i++) { memset((uint8_t *)fp.st_space + 16 * i, 0, 16); memcpy((uint8_t *)fp.st_space + 16 * i, x87 + 10 * i, 10); }
+            fp.ftw = x87tag; fp.swd = 0; fp.cwd = 0x37f;
             if (ptrace(PTRACE_SETFPREGS, child, 0, &fp) < 0) status = 0xffff;
         }
         if (status == 0) {
@@ -121,6 +131,14 @@ int main(int argc, char **argv) {
             for (int i = 0; i < 8; i++) memcpy(mmx + 8 * i, (uint8_t *)fp.st_space + 16 * i, 8);
             wr(mmx, 64);
             wr(fp.xmm_space, 128);
+        }
+        if (flags & 8) {
+            memset(&fp, 0, sizeof fp);
+            if (status != 0xfffe) ptrace(PTRACE_GETFPREGS, child, 0, &fp);
+            for (int i = 0; i < 8; i++) memcpy(x87 + 10 * i, (uint8_t *)fp.st_space + 16 * i, 10);
+            wr(x87, 80);
+            uint16_t swd = fp.swd; uint8_t tg = (uint8_t)fp.ftw;
+            wr(&swd, 2); wr(&tg, 1);
         }
         /* no per-case flush: the driver sends a whole batch and reads until EOF */
         if (status == 0xfffe) {            /* tracee died: start a new one */
